@@ -4,6 +4,8 @@ import IOptProofs.BenchMeta2
 import IOptProofs.BenchMeta3
 import IOptProofs.BenchShekel
 import IOptProofs.ShekelCertAll
+import IOptProofs.BenchShekel4
+import IOptProofs.ShekelCertS4
 /-!
 # C10: the declared optimum of each benchmark family is the true one
 
@@ -161,5 +163,57 @@ theorem C10_shekel_declared (i : Nat) (hi : i < 1000) :
 /-- non-vacuity: the certificate of function 0 is `true`, its declared minimum value is below -1.8 -/
 example : Shk.shekelOK 0 = true ∧ (Gen.shekelMinValue 0).toRat < -18 / 10 :=
   ⟨Shk.shekel_all 0 (by norm_num), by decide +kernel⟩
+
+/-! ### Shekel4 (3 functions on `[0,10]⁴`) -/
+
+/-- **C10, Shekel4, generic theorem.** If the Boolean certificate `Shk4.shekel4OK n` (computed from
+`Gen.shekel4Rows`, `Gen.shekel4MaxI` and the metadata row of `Shekel4(n)`) evaluates to `true`, then the
+metadata table has a row of family 2 with argument `n`, and for `f = Prob.shekel4` with the first
+`maxI[n-1]` coefficient rows, the declared value `v` and the declared point `p` of that row:
+every `pⱼ ∈ [0,10]`; `|f p - v| ≤ 1e-4`; `f x ≥ v - 2e-3·max(1,|v|)` on the whole cube; every point of the
+cube with `f x ≤ f p` is within `25/1024` of `p` in every coordinate. -/
+theorem C10_shekel4_generic (n : Nat) (h : Shk4.shekel4OK n = true) :
+    ∃ row ∈ Gen.metaRowsPacked.toList, (Gen.metaDecode row).family = 2 ∧ (Gen.metaDecode row).arg0 = n ∧
+      Shk4.Shekel4C10 (Shk4.shekel4Fn n) (dyR (Gen.metaDecode row).optValue)
+        ((Gen.metaDecode row).optPoint.map dyR) :=
+  let ⟨row, h1, h2, h3, h4, _⟩ := Shk4.shekel4OK_sound n h
+  ⟨row, h1, h2, h3, h4⟩
+
+/-- **C10, Shekel4 1..3.** The three clauses hold for the three shipped functions; a global minimiser on
+the cube exists; every global minimiser is within `25/1024` of the declared point in every coordinate, hence
+(dimension 4) within Euclidean distance `0.05` = 0.5 % of the box side. -/
+theorem C10_shekel4 (n : Nat) (hn : n = 1 ∨ n = 2 ∨ n = 3) :
+    ∃ row ∈ Gen.metaRowsPacked.toList, (Gen.metaDecode row).family = 2 ∧ (Gen.metaDecode row).arg0 = n ∧
+      Shk4.Shekel4C10 (Shk4.shekel4Fn n) (dyR (Gen.metaDecode row).optValue)
+        ((Gen.metaDecode row).optPoint.map dyR) ∧
+      (∃ xs : List ℝ, xs.length = (Gen.metaDecode row).optPoint.length ∧ (∀ xj ∈ xs, 0 ≤ xj ∧ xj ≤ 10) ∧
+        ∀ x : List ℝ, x.length = (Gen.metaDecode row).optPoint.length → (∀ xj ∈ x, 0 ≤ xj ∧ xj ≤ 10) →
+          Shk4.shekel4Fn n xs ≤ Shk4.shekel4Fn n x) ∧
+      (∀ xs : List ℝ, xs.length = (Gen.metaDecode row).optPoint.length → (∀ xj ∈ xs, 0 ≤ xj ∧ xj ≤ 10) →
+        (∀ x : List ℝ, x.length = (Gen.metaDecode row).optPoint.length → (∀ xj ∈ x, 0 ≤ xj ∧ xj ≤ 10) →
+          Shk4.shekel4Fn n xs ≤ Shk4.shekel4Fn n x) →
+        List.Forall₂ (fun pj xj => |xj - pj| < 25 / 1024) ((Gen.metaDecode row).optPoint.map dyR) xs ∧
+        Shk4.sqd xs ((Gen.metaDecode row).optPoint.map dyR)
+          ≤ (Gen.metaDecode row).optPoint.length * (25 / 1024 : ℝ) ^ 2) := by
+  have hok : Shk4.shekel4OK n = true := by
+    rcases hn with rfl | rfl | rfl
+    · exact Shk4.shekel4_cert_1
+    · exact Shk4.shekel4_cert_2
+    · exact Shk4.shekel4_cert_3
+  obtain ⟨row, h1, h2, h3, h4, hc⟩ := Shk4.shekel4OK_sound n hok
+  have hmin := h4.minimiser (by simpa using hc ((Gen.metaDecode row).optPoint.map dyR).length)
+  simp only [List.length_map] at hmin
+  refine ⟨row, h1, h2, h3, h4, hmin.1, fun xs hl hx hm => ?_⟩
+  have hclose := hmin.2 xs hl hx hm
+  refine ⟨hclose, ?_⟩
+  have := Shk4.sqd_le_of_close (25 / 1024) _ _ hclose
+  simpa using this
+
+/-- the declared point of `Shekel4(1)` is `(4,4,4,4)` and `4·(25/1024)² < 0.05²` -/
+example : (∃ row ∈ Gen.metaRowsPacked.toList, (Gen.metaDecode row).family = 2 ∧ (Gen.metaDecode row).arg0 = 1) ∧
+    (4 : ℝ) * (25 / 1024) ^ 2 < 0.05 ^ 2 := by
+  refine ⟨?_, by norm_num⟩
+  obtain ⟨row, h1, h2, h3, _⟩ := C10_shekel4_generic 1 Shk4.shekel4_cert_1
+  exact ⟨row, h1, h2, h3⟩
 
 end C10
